@@ -97,7 +97,7 @@ CHECKS = {
         "design_ref": "DESIGN.md section 8 / C09",
     },
     "C11": {
-        "technique": "Lean 4 proof (first-match = first alternative that matches at all; exclusion = whole-span test) over the engine model + differential on generated grammars with dense flags/exclusions and toggle sequences, adjudicated by the reference set semantics",
+        "technique": "Lean 4 proof: the engine model computes the reference SET semantics refEnds - first-match = the first alternative whose set is non-empty, exclusion = whole-span test - for every grammar with min <= max, every assignment of flags and exclusion pairs, every source and offset (C11.ends_are_reference, P1), and clause by clause (first_match, flag_off_union, exclusion, flag_last_write_wins) + differential on generated grammars with dense flags/exclusions (API and ABNF-text route) and toggle sequences, adjudicated by the reference semantics",
         "text": "Theorems about altEval with the flag on/off and about the exclusion filter for all grammars and inputs; tie: end sets on generated flagged grammars and after toggle sequences through the public property.",
         "design_ref": "DESIGN.md section 8 / C11",
     },
